@@ -616,6 +616,12 @@ func (r *Run) binop(op token.Token, t types.Type, x, y Value, p token.Pos) Value
 				if len(ys.B) == 0 && ys.Atom == nil {
 					return x
 				}
+				// atoms are opaque names: their concatenation is an uninterpreted (congruent) function
+				_, xc := x.Concrete()
+				_, yc := ys.Concrete()
+				if (x.Atom != nil || xc) && (ys.Atom != nil || yc) {
+					return Str{Atom: r.UF("uf_concat_2", AtomSort, []string{r.AsAtom(x).SMT(), r.AsAtom(ys).SMT()})}
+				}
 				panic(unsupported("concatenation of atom strings"))
 			}
 			nb := make([]*Term, 0, len(x.B)+len(ys.B))
